@@ -232,7 +232,7 @@ func TestC19_SignedManifest(t *testing.T) {
 			t.Skipf("generator: %v", err)
 		}
 		raw := d.Serialize(xmlgen.GenStyle(t))
-		key := rapid.SampledFrom(pipe.SigningKeys).Draw(t, "key")
+		key := rapid.SampledFrom(append(append([]string{}, pipe.SigningKeys...), pipe.ExtraKeys...)).Draw(t, "key")
 		h := rapid.SampledFrom([]crypto.Hash{crypto.SHA1, crypto.SHA256, crypto.SHA384, crypto.SHA512}).Draw(t, "hash")
 		mcounter++
 		dir := filepath.Join(workDir, fmt.Sprintf("m%d", mcounter))
